@@ -21,6 +21,7 @@ StepOK(e, idx) ==
     [] e.ev = "RectClipLines" -> RectClipLinesOK(e, idx)
     [] e.ev = "Measure" -> MeasureOK(e, idx)
     [] e.ev = "Call" -> CallOK(e, idx)
+    [] e.ev = "Util" -> UtilOK(e, idx)
     [] e.ev = "Sweep" -> SweepEvOK(e, idx)
     [] e.ev = "SchedRun" -> SchedRunOK(e, idx)
     [] e.ev = "MagGroup" -> MagGroupOK(e, idx)
